@@ -88,12 +88,14 @@ def main() -> None:
             name = "_DocstringParser__get_cached_docstring"
             orig_lookup = getattr(dp.DocstringParser, name)
 
-            def lookup(self, qname):
-                res = orig_lookup(self, qname)
+            def lookup(self, qname, *a, **k):
+                res = orig_lookup(self, qname, *a, **k)
                 owner = "@none"
                 if res is not None:
                     parent = getattr(res, "parent", None)
                     owner = getattr(parent, "path", "@unknown") if parent is not None else "@detached"
+                    if parent is not None and getattr(parent, "docstring", None) is not res:
+                        owner = "@own"      # parsed from the text of the declaration itself, listed nowhere in the docstring library's tree
                 if len(rec["cache"]) < 200000:
                     rec["cache"].append([qname, owner])
                 return res
